@@ -1,5 +1,5 @@
 import Reduino.Lang.Syntax
-/- Python semantics of the source fragment (big-step, fuel-indexed). -/
+/- Python semantics of the source fragment (big-step, fuel-indexed).  W6: a call of a helper runs the carried body in a fresh frame. -/
 namespace Reduino.Lang.Py
 
 /-- Python expression evaluation: bools are ints in arithmetic and comparisons (`& | ^` of two bools is a bool), `and`/`or` return an OPERAND,
@@ -82,6 +82,21 @@ def exec : Nat → Stmt → St → Except Err St
       let ms ← v.num                  -- `sleep("a")` is a TypeError
       if ms < 0 then .error .negativeDelay else pure { st with trace := .delay ms :: st.trace }
     | .brk => pure { st with flow := .broke }
+    | .call x _ ps _ _ body ret args => do
+      -- W6: the arguments left to right in the caller's store; a fresh frame holding the parameters (the body of a helper of this
+      -- model names its parameters and locals only: a module-level name is a `nameError` here); the body, its events appended to
+      -- the caller's; the value of the trailing `return`, bound to `x` in the caller's store.  `x = f(…)` with a procedure `f`
+      -- would bind `None`: not modelled (`typeError`).  A wrong number of arguments is Python's TypeError.
+      let vs ← evalList st.store args
+      if ps.length ≠ args.length then .error .typeError
+      else do
+        let st1 ← exec fuel body { store := Store.setAll [] (ps.map (·.1)) vs, trace := st.trace }
+        if st1.flow = .broke then .error .breakOutside       -- `break` outside a loop of the body: a SyntaxError
+        else match ret, x with
+          | none, none => pure { st with trace := st1.trace }
+          | none, some _ => .error .typeError
+          | some e, none => do let _ ← eval st1.store e; pure { st with trace := st1.trace }
+          | some e, some x => do let v ← eval st1.store e; pure { st with store := st.store.set x v, trace := st1.trace }
 where
   /-- `for i in range(n)`: `n` was evaluated once; `i` is (re)bound from the iterator at every iteration -/
   forLoop : Nat → String → Int → Int → Stmt → St → Except Err St
